@@ -55,6 +55,10 @@ claimed = {
    text="An adversarial raw peer per server kind/mode (json, post-sse, stateless, sessions disabled, legacy SSE, stdio) sends batches from a systematically enumerated lattice - every field of every valid request x {removed, null, true, 0, -1, 1.5, 2^53+1, '', 'x', [], [1,'a'], {}, {a:1}} - plus garbage (non-JSON, truncated, scalars, 3000-deep nesting, 300 KB request, duplicate keys, batch arrays, unknown methods, responses never asked for) and HTTP-level garbage (verbs, paths, headers, session ids), interleaved by the scheduler with 1-2 well-behaved library clients on the same server. Oracle: no panic in any server goroutine or handler (recorded by the go-statement wrapper and the simulated net/http recovery), no livelock, no lock-blocked task, clearly unservable inputs answered by a 4xx/5xx status or a JSON-RPC error, ping on the same and on a fresh connection afterwards, well-behaved calls all succeed with their own answers, library goroutine count after the batch not above the count before it.",
    note="Coverage-guided fuzzing (named in the quantifier) is another technique and is not claimed. Weaker reading: a message that reads as a response to a request never sent may be accepted (202) as long as nothing happens; ids of odd JSON types and a missing jsonrpc member may be served leniently.",
    tech=TECH+"enumerated field x JSON-type lattice interleaved with well-behaved traffic; panic/deadlock/leak oracle"),
+ "C03": dict(cat="exploration", ref="DESIGN.md §6 C03",
+   text="1-2 raw reference peers per server kind/mode (all seven, chosen by run index) send batches enumerated from the same field x JSON-type lattice as C06, garbage inputs, and requests whose handlers succeed, fail with a message, return (nil,nil), return a value json.Marshal rejects, or return every content kind; their frames share streams (legacy SSE, stdio) and interleave under the scheduler. Every frame a server emits is parsed by an independent validator written from the JSON-RPC 2.0 / MCP 2025-03-26 schema over generic JSON (no library types): version, id JSON-identical to the request's, exactly one of result/error, integer code, string message, result shape per method (content arrays and item kinds, prompt messages and roles, resource contents, tool descriptors, initialize result), no unknown envelope members; a request must get exactly one answer or a non-2xx status (never an empty 2xx); unknown method -> -32601, missing/ill-typed required parameters -> -32602, unparsable -> -32700/-32600 or 4xx, handler error or unencodable result -> -32603 carrying the message.",
+   note="The validator is hand-written in Go from the schema (python jsonschema named in the property's anchors is not used so that the check stays inside one simulated run). Inputs a lenient server may serve or refuse (odd id types, missing jsonrpc member, string name of an unregistered entry) are only checked for well-formed output.",
+   tech=TECH+"independent schema validator over every emitted frame; enumerated input lattice and handler outcomes"),
 }
 NA = {
  "C18": "pure relation between two translators (schema generator vs encoding/json) over types and values: no schedule, clock, fault or interleaving for a simulator to decide (DESIGN.md §7)",
